@@ -1076,7 +1076,7 @@ def judge_delivery(direction, sends, recvs, complete):
     before send(m2) was called (always so inside one sender thread) no receiver thread gets m2 before m1, and with
     one receiver thread the messages of a sender thread arrive without gaps; complete (quiescence, nobody closed):
     the delivered and the accepted messages are the same multiset.  Returns (clause, text) or None."""
-    info, owner = {}, {}
+    info = {}
     for t, recs in sends.items():
         for k, (msg, s0, s1) in enumerate(recs):
             info[msg] = (s0, s1 if s1 is not None else 1 << 62, t, k)
